@@ -44,7 +44,6 @@ func main() {
 
 func runProg(name, src string) {
 	r, cleanup := hlib.NewRuntime(os.Stderr)
-	defer cleanup()
 	var trace []string
 	r.SetEnvGoFunc(r.GlobalEnv(), "emit", func(t *rt.Thread, c *rt.GoCont) (rt.Cont, error) {
 		var parts []string
@@ -66,10 +65,23 @@ func runProg(name, src string) {
 	}, 1, true)
 	clos, err := hlib.Load(r, name, src)
 	if err != nil {
+		cleanup()
 		hlib.Emit("prog", name, "compile-error")
 		return
 	}
 	class, res, msg := hlib.PCall(r, rt.FunctionValue(clos))
+	// closing the runtime runs the pending finalisers: their events are part of the trace
+	trace = append(trace, "<close>")
+	func() {
+		defer func() {
+			if p := recover(); p != nil {
+				trace = append(trace, "<panic-in-close>")
+			}
+		}()
+		var cerr error
+		r.Close(&cerr)
+		cleanup()
+	}()
 	var rs []string
 	for _, v := range res {
 		rs = append(rs, hlib.Enc(v))
@@ -141,6 +153,51 @@ local x = setmetatable({v = 1}, mt) local y = x for i = 1, 100 do y = y + x end 
 local function mk(n) return setmetatable({}, {__close = function(_, e) log[#log + 1] = n .. ":" .. tostring(e ~= nil) end}) end
 local function f(k) local a <close> = mk("a" .. k) local b <close> = mk("b" .. k) if k == 0 then error("E", 0) end return f(k - 1) end
 emit(pcall(f, 5)) emit(table.concat(log, ","))`,
+	// register-set reuse: same function (with captured locals) called again after an earlier call returned,
+	// non-tail recursion in between, closures from both generations kept alive
+	`local keep = {}
+local function mk(tag, depth)
+  local a, b = tag .. "-a" .. depth, tag .. "-b" .. depth
+  local function get() return a .. b end
+  keep[#keep + 1] = get
+  if depth > 0 then local inner = mk(tag, depth - 1) return function() return get() .. "|" .. inner() end end
+  return get
+end
+local f1 = mk("x", 0) emit(f1())
+local f2 = mk("y", 2) emit(f2())
+local f3 = mk("z", 1) emit(f3(), f1(), f2())
+local out = {} for i, g in ipairs(keep) do out[i] = g() end emit(table.concat(out, ","))`,
+	`local function frame(n) local v = "frame" .. n local function show() return v end
+  if n < 3 then local inner = frame(n + 1) return function() return show() .. " " .. inner() end end return show end
+local a = frame(2) emit(a()) local b = frame(0) emit(b()) local c = frame(1) emit(a(), b(), c())
+for i = 1, 20 do local f = frame(i % 4) emit(f()) end`,
+	// return/call debug hooks inspecting the function that triggered the event
+	`local function leaf(x) return x + 1 end
+local function middle(x) local y = leaf(x) return y * 2 end
+local function tailer(x) return middle(x) end
+local events = {}
+local function hook(ev) local info = debug.getinfo(2, "nSl")
+  events[#events + 1] = ev .. ":" .. tostring(info and info.name) .. ":" .. tostring(info and info.currentline) end
+debug.sethook(hook, "cr") local r = middle(20) + tailer(1) debug.sethook()
+emit(r) emit(table.concat(events, " "))`,
+	// finalisers: order at close, re-marking, objects created inside pcall / xpcall / coroutine staying reachable
+	`local log = {}
+local function obj(name) return setmetatable({name = name}, {__gc = function(o) emit("gc", o.name) end}) end
+KEEP = {}
+KEEP[1] = obj("a") KEEP[2] = obj("b") KEEP[3] = obj("c")
+setmetatable(KEEP[1], getmetatable(KEEP[1]))  -- re-mark a after b and c
+KEEP[4] = obj("d")
+setmetatable(KEEP[3], {__gc = function(o) emit("gc2", o.name) end})  -- re-mark c with another finaliser
+pcall(function() KEEP[5] = obj("in-pcall") end)
+xpcall(function() KEEP[6] = obj("in-xpcall") error("x") end, function(e) KEEP[7] = obj("in-handler") return e end)
+coroutine.wrap(function() KEEP[8] = obj("in-co") coroutine.yield() end)()
+emit("end of chunk")`,
+	`local function obj(name) return setmetatable({name = name}, {__gc = function(o) emit("gc", o.name) end}) end
+G1 = obj("outer1")
+local ok = pcall(function() G2 = obj("inner1") local t <close> = setmetatable({}, {__close = function() emit("close-inner") end}) error("boom") end)
+emit(ok) G3 = obj("outer2")
+for i = 1, 3 do pcall(function() _G["P" .. i] = obj("p" .. i) end) end
+emit("still alive", G2.name, P1.name, P3.name)`,
 	// generic for with stateful iterators and string building
 	`local function range(n) local i = 0 return function() i = i + 1 if i <= n then return i, i * i end end end
 local parts = {} for i, sq in range(50) do parts[#parts + 1] = i .. "=" .. sq end emit(#table.concat(parts, ","))
